@@ -424,7 +424,7 @@ func ptsField(b []byte) string {
 }
 
 func gen(g *hx.Gen) {
-	n := g.Count(3000, 100000)
+	n := g.Count(3000, 60000)
 	r := g.R
 	for i := 0; i < n; i++ {
 		tc := pickTimes(r, g)
